@@ -111,6 +111,8 @@ type Shape struct {
 	// SameNames: the repositories of the second context carry the same names as those of the first one
 	// (different repositories: the contexts have their own metadata and only share the blob store)
 	SameNames bool `json:"same_repo_names,omitempty"`
+	// CRC: the uploaders' stores take checksums (PutCRC) and the blob store reports them in its attributes, as GCS does
+	CRC bool `json:"crc_stores,omitempty"`
 }
 
 // RepoName names repository r of context c
@@ -148,6 +150,7 @@ func DrawShape(t *rapid.T) Shape {
 		s.Repos = append(s.Repos, rapid.IntRange(1, 2).Draw(t, "repos1"))
 		s.SameNames = rapid.Bool().Draw(t, "same_names")
 	}
+	s.CRC = rapid.Bool().Draw(t, "crc_stores")
 	l := []uint32{1024, 2048, 4096}[pick(t, "leaf", 2, 1, 1)]
 	s.Leaves = []uint32{l}
 	if pick(t, "twoleaf", 4, 1) == 1 {
@@ -381,6 +384,7 @@ func NewWorld(s Shape) (*World, error) {
 	w := &World{Shape: s, Sc: hx.NewScratch(), Proc: memstore.NewProc()}
 	for c := range s.Repos {
 		e := hx.NewEnv()
+		e.CRC = s.CRC
 		if c == 0 {
 			e.Blob.UseWallClock()
 		} else {
